@@ -790,7 +790,7 @@ class Interp:
     def _loop(self, st, fr, kind, it=None):
         self._loop_id += 1
         lid = f'L{getattr(st, "lineno", 0)}'
-        assigned = self._assigned_names(st.body)
+        assigned = self._assigned_names(st.body) | self.__dict__.setdefault('_extra_carried', {}).get(id(st), set())
         info = {'id': lid, 'kind': kind, 'node': st}
         views = self._row_views(st) if kind == 'for' else {}
         if views:
@@ -872,10 +872,18 @@ class Interp:
                 self.assign(st.target, tgt_val[0], fr, st, quiet=True)
             self.exec_block(st.body, fr)
             written = [k for k, v in self.heap.items() if k not in heap0 or heap0[k].key != v.key]
+            # a local the body changed although no statement of the body assigns it (a callee reached through a table or a
+            # closure stored into the caller's array): it is loop-carried all the same
+            moved = {n_ for n_ in env0 if n_ not in assigned and n_ in fr.env and fr.env[n_].key != env0[n_].key}
         finally:
             self._assign_trackers.pop()
             self.record = rec
             del self.events[nev:]
+        if moved and not (moved <= self._extra_carried.get(id(st), set())):
+            self._extra_carried[id(st)] = self._extra_carried.get(id(st), set()) | moved
+            fr.env, self.heap = dict(env0), dict(heap0)
+            self._loop_id -= 1
+            return self._loop(st, fr, kind, it=it)
         inv1 = {n: self._invariant_guard(track1.get(n), lid, written) for n in elig}
         inv1 = {n: g for n, g in inv1.items() if g is not None and g.key != TRUE.key}
         # a name re-bound only in the LAST iteration (every re-binding is under `index == trip - 1`) has its entry value
@@ -1480,8 +1488,9 @@ class Interp:
         if isinstance(fi.node, ast.Lambda) and fi.parent is not None:
             lams = [n for n in ast.walk(fi.parent.node) if isinstance(n, ast.Lambda)]
             lams.sort(key=lambda n: (n.lineno, n.col_offset))
-            k = next((i for i, n in enumerate(lams) if n is fi.node), 0)
-            name = re.sub(r'<lambda@[\d:]+>', f'<lambda#{k}>', name)
+            k = next((i for i, n in enumerate(lams) if n is fi.node), None)
+            if k is not None:       # (a lambda of a module-level table is not inside its pseudo parent: it keeps its position)
+                name = re.sub(r'<lambda@[\d:]+>', f'<lambda#{k}>', name)
         return name
 
     def make_closure(self, fi, fr):
